@@ -199,6 +199,14 @@ class Driver:
 
         d = os.path.join(VERIF, "work", "drv")
         os.makedirs(d, exist_ok=True)
+        # private copies left behind by worker processes (they end without running atexit handlers) or by killed runs
+        for fn in os.listdir(d):
+            m = re.match(r"driver-(\d+)-", fn)
+            if m and not os.path.exists(f"/proc/{m.group(1)}"):
+                try:
+                    os.remove(os.path.join(d, fn))
+                except OSError:
+                    pass
         self.path = os.path.join(d, f"driver-{os.getpid()}-{id(self)}")
         shutil.copy2(DRIVER, self.path)
         atexit.register(lambda p=self.path: os.path.exists(p) and os.remove(p))
